@@ -95,6 +95,13 @@ def gen_page(rng, feats, crlf=False):
                 lines.append(rng.choice(["#", "# in-block comment", "# o P1 240101#00 looks like a todo #tag k::v"]))
                 feats.add("in_block_comment")
                 continue
+            if rng.random() < 0.07:
+                # an item with an empty body (prefix, optional priority, one trailing space) is legal and yields no note;
+                # whatever it carries (priority, kind) must not leak into the items after it
+                k = rng.choice(list(KIND_NAME))
+                lines.append(k + (f" P{rng.randint(0, 9)}" if k != "-" and rng.random() < 0.7 else "") + " ")
+                feats.add("empty_item")
+                continue
             it = gen_item(rng, zalloc, feats)
             ls = render_item(it)
             body_lines = [ls[0][len(it["kind"]) + (len(f" P{it['prio']}") if it["prio"] is not None else 0):]] + ls[1:]
